@@ -82,3 +82,17 @@ Example C02_lzx_ghost_checks_bite :
   fst (fst (Lzx.lzx_call 0 LzxSafe.bad_state {| irest := s_stream ++ s_pad ++ [0; 0]; iout := [] |} 10)) = Lzx.OOB /\
   fst (Lzx.lzx_run 17 0 (N.of_nat (length s_data)) true [] (s_stream ++ s_pad) [10]) = [0].
 Proof. split; vm_compute; reflexivity. Qed.
+
+(* ---- the MSZIP port (Model/Mszip.v, tied to mszipd.c by the decoder-level correspondence) with ghost bounds checks on every index into
+        the 32 KiB window: the literal store, the read and the store of every step of a match copy (incl. the start position
+        `window_posn - distance` going below zero), the copy of a stored block ---- *)
+From MSP Require Model.Mszip Proofs.MszipSafe.
+(* one frame ('CK' search + inflate until the last block) from ANY decoder state, for every input: never out of bounds, and it ends with
+   window_posn <= 32768.  Needs no invariant across frames or calls (every frame starts by resetting window_posn), so it covers every
+   call sequence of mszipd_decompress and the KWAJ use of the same inflate *)
+Theorem C02_mszip_frame_in_bounds : forall rule hint st i r i', ideal rule hint (Mszip.zframe st) i = (SVal r, i') ->
+  match r with inl e => e <> Mszip.IErr Mszip.OOBZ | inr (_, s') => Mszip.wpos s' <= Mszip.FRAME end.
+Proof. exact MszipSafe.zframe_never_oob. Qed.
+Print Assumptions C02_mszip_frame_in_bounds.
+Example C02_mszip_ghost_checks_bite : Mszip.out_byte 65 (Mszip.upd_win Mszip.init Mszip.Emp Mszip.FRAME 0) = SRet (inl (Mszip.IErr Mszip.OOBZ)).
+Proof. exact MszipSafe.ghost_checks_bite. Qed.
